@@ -1,9 +1,15 @@
 package main
 
 import (
+	"bufio"
+	"bytes"
 	"errors"
 	"fmt"
 	"io"
+	"os"
+	"os/exec"
+	"strconv"
+	"strings"
 	"sync"
 	"time"
 
@@ -180,8 +186,14 @@ func c14run(cs *c14case, r *rng, steps int, scripted []uint64) (events []uint64,
 	settle := func() {
 		var prev [8]uint64
 		same := 0
-		for i := 0; i < 120 && same < 3; i++ {
-			time.Sleep(600 * time.Microsecond)
+		deadline := time.Now().Add(8 * time.Second)
+		for i := 0; same < 3 && (i < 120 || (evAlone && time.Now().Before(deadline))); i++ {
+			time.Sleep(300 * time.Microsecond)
+			if evAlone && !evQuiet() {
+				// (child process, one case at a time) some goroutine can still run: not settled, whatever the state looks like
+				same = 0
+				continue
+			}
 			st := rr.VerifNodeState()
 			t, vt, vc := stable.Triple()
 			mu.Lock()
@@ -249,7 +261,7 @@ func c14run(cs *c14case, r *rng, steps int, scripted []uint64) (events []uint64,
 	} else {
 		rr.VerifFireHeartbeatTimeout()
 	}
-	waitFor(200*time.Millisecond, func() bool {
+	waitFor(5*time.Second, func() bool {
 		return rr.State() != raft.Follower && (tr.count(1)+tr.count(2) >= peers || rr.State() == raft.Leader)
 	})
 	settle()
@@ -347,12 +359,20 @@ func c14run(cs *c14case, r *rng, steps int, scripted []uint64) (events []uint64,
 			old := tr.takeAll()
 			t0 := rr.CurrentTerm()
 			rr.VerifSetElectionTimeout(15 * time.Millisecond)
-			waitFor(200*time.Millisecond, func() bool {
+			waitFor(5*time.Second, func() bool {
 				return tr.count(1)+tr.count(2) >= peers && (peers > 0 || rr.CurrentTerm() > t0 || rr.State() != raft.Candidate)
 			})
 			rr.VerifSetElectionTimeout(time.Hour)
 			for _, p := range old {
 				p.reply <- pendAns{err: true}
+			}
+			if rr.CurrentTerm() > t0+1 {
+				// the short election timer fired more than once before it was set back to one hour (the process
+				// was descheduled for longer than the timeout): the run has lost control of the server's timing
+				// and ends before this event - it reports nothing about steps it did not control
+				events = events[:len(events)-len(ev)]
+				settle()
+				return
 			}
 			settle()
 			checkElection()
@@ -377,29 +397,23 @@ func runC14cand(cw *caseWriter, tier string, r *rng) {
 	cfg3nv := []srv{{0, 1, 1}, {0, 2, 2}, {0, 3, 3}, {1, 4, 4}}
 	cfg1 := []srv{{0, 1, 1}}
 	cfgSelfNv := []srv{{1, 1, 1}, {0, 2, 2}, {0, 3, 3}}
-	type job struct {
-		cs *c14case
-		sd uint64
-	}
-	jobs := make(chan job, cnt)
-	type res struct {
-		in, obs []uint64
-		mons    []string
-	}
-	results := make(chan res, cnt)
+	cfgs := [][]srv{cfg3, cfg5, cfg3nv, cfg1, cfgSelfNv}
+	const workers = 8
+	var jobs [workers]bytes.Buffer
 	for c := 0; c < cnt; c++ {
 		cs := &c14case{self: 1, prevote: r.chance(2, 3), term: 3, li: uint64(1 + r.intn(3)), lt: 2}
+		ci := 0
 		switch x := r.intn(10); {
 		case x < 5:
-			cs.cfg = cfg3
+			ci = 0
 		case x < 7:
-			cs.cfg = cfg5
+			ci = 1
 		case x < 8:
-			cs.cfg = cfg3nv
+			ci = 2
 		case x < 9:
-			cs.cfg = cfg1
+			ci = 3
 		default:
-			cs.cfg = cfgSelfNv
+			ci = 4
 			cs.transfer = true
 		}
 		if r.chance(1, 6) {
@@ -408,27 +422,44 @@ func runC14cand(cw *caseWriter, tier string, r *rng) {
 		if r.chance(1, 3) {
 			cs.vterm, cs.vcand = 3, 3
 		}
-		jobs <- job{cs, r.next()}
+		fmt.Fprintf(&jobs[c%workers], "%s %d %d %d %d %d %d\n", cw.tag("k"), r.next(), ci, b2u(cs.prevote), cs.li, b2u(cs.transfer), cs.vterm)
 	}
-	close(jobs)
-	for w := 0; w < 6; w++ {
-		go func() {
-			for j := range jobs {
-				rr := &rng{s: j.sd}
-				evs, obs, mons := c14run(j.cs, rr, 3+rr.intn(8), nil)
-				results <- res{append(j.cs.header(), evs...), obs, mons}
+	_ = cfgs
+	// the sessions run in child processes, one at a time each: "settled" = every goroutine blocked (evQuiet)
+	var mu sync.Mutex
+	var wg sync.WaitGroup
+	for wk := 0; wk < workers; wk++ {
+		wg.Add(1)
+		go func(wk int) {
+			defer wg.Done()
+			cmd := exec.Command(os.Args[0], "c14batch")
+			cmd.Env = append(os.Environ(), "GOMAXPROCS=4")
+			cmd.Stdin = &jobs[wk]
+			cmd.Stderr = os.Stderr
+			out, err := cmd.Output()
+			mu.Lock()
+			defer mu.Unlock()
+			if err != nil {
+				cw.stats["c14_child_errors"]++
 			}
-		}()
+			for _, line := range strings.Split(string(out), "\n") {
+				parts := strings.SplitN(line, "|", 4)
+				if len(parts) != 4 {
+					continue
+				}
+				tag := strings.TrimSpace(parts[0])
+				in := c14ints(parts[1])
+				obs := c14ints(parts[2])
+				cw.emit(tag, 14, in, obs, len(in) > 20)
+				for _, m := range strings.Split(parts[3], "\x1f") {
+					if strings.TrimSpace(m) != "" {
+						cw.monitor("C14", tag, "term-raised-without-prevote-quorum-of-voters", "%s", m)
+					}
+				}
+			}
+		}(wk)
 	}
-	for c := 0; c < cnt; c++ {
-		x := <-results
-		nt := len(x.in) > 20
-		tag := cw.tag("k")
-		cw.emit(tag, 14, x.in, x.obs, nt)
-		for _, m := range x.mons {
-			cw.monitor("C14", tag, "term-raised-without-prevote-quorum-of-voters", "%s", m)
-		}
-	}
+	wg.Wait()
 	cw.stat("c14_candidate_sessions", cnt)
 }
 
@@ -455,5 +486,52 @@ func runC14(cw *caseWriter, tier string, seed uint64) {
 		runScenarios(cw, 4, seed*100000, 16, 4)
 	} else {
 		runScenarios(cw, 4, seed*100000, 200, 4)
+	}
+}
+
+func c14ints(x string) []uint64 {
+	var out []uint64
+	for _, f := range strings.Fields(x) {
+		v, _ := strconv.ParseUint(f, 10, 64)
+		out = append(out, v)
+	}
+	return out
+}
+
+// child: lines "tag seed cfg prevote li transfer vterm" -> "tag | in | obs | monitor texts"
+func c14Batch() {
+	evAlone = true
+	cfgs := [][]srv{
+		{{0, 1, 1}, {0, 2, 2}, {0, 3, 3}},
+		{{0, 1, 1}, {0, 2, 2}, {0, 3, 3}, {0, 4, 4}, {0, 5, 5}},
+		{{0, 1, 1}, {0, 2, 2}, {0, 3, 3}, {1, 4, 4}},
+		{{0, 1, 1}},
+		{{1, 1, 1}, {0, 2, 2}, {0, 3, 3}},
+	}
+	sc := bufio.NewScanner(os.Stdin)
+	w := bufio.NewWriter(os.Stdout)
+	defer w.Flush()
+	for sc.Scan() {
+		f := strings.Fields(sc.Text())
+		if len(f) != 7 {
+			continue
+		}
+		v := c14ints(strings.Join(f[1:], " "))
+		cs := &c14case{self: 1, prevote: v[2] != 0, term: 3, li: v[3], lt: 2, transfer: v[4] != 0, cfg: cfgs[v[1]]}
+		if v[5] != 0 {
+			cs.vterm, cs.vcand = 3, 3
+		}
+		rr := &rng{s: v[0]}
+		evs, obs, mons := c14run(cs, rr, 3+rr.intn(8), nil)
+		in := append(cs.header(), evs...)
+		fmt.Fprintf(w, "%s |", f[0])
+		for _, x := range in {
+			fmt.Fprintf(w, " %d", x)
+		}
+		fmt.Fprint(w, " |")
+		for _, x := range obs {
+			fmt.Fprintf(w, " %d", x)
+		}
+		fmt.Fprintf(w, " | %s\n", strings.Join(mons, "\x1f"))
 	}
 }
